@@ -162,6 +162,9 @@ func c15Material(run *vl.Run, cfgName string, sub, nsub int) {
 		for _, b := range mats {
 			for layout := 0; layout < 4; layout++ {
 				r := placeMaterial(w, b, layout)
+				if !r.Valid() {
+					r.White = !r.White // the placement has the side not to move in check: let that side move
+				}
 				for _, q := range []*refchess.Pos{r, r.Mirror()} {
 					p, err := position.NewPositionFen(q.FEN())
 					if err != nil || !q.Valid() {
